@@ -38,6 +38,31 @@ CHECKS = {
    text="Exploration of the string space (XML specials, edge/repeated spaces, TAB/LF/CR, combining marks, astral characters, empty, up to 32767 units) crossed with storage forms. xlsx: shared/inline/t=str, plain/rich runs/phonetic, entities/hex/decimal references/CDATA, empty shared items of four kinds before and between used items (index alignment). Other formats are added as their encoders land.",
    note="Trusts the encoders' escaping routines. XML formats are restricted to XML 1.0 characters; _xHHHH_ escapes are not generated.",
    design="4/C19"),
+ "C02": dict(
+   technique="property-based round-trip/differential testing (proptest) through a harness-written BIFF8 + compound-file encoder; metamorphic relation over all valid encodings of each number (NUMBER / RK int / int/100 / float / float/100 / MULRK grouping); exhaustive enumeration of all 2^32 RK words against a reference decoder (thorough; every 1021st word in quick)",
+   text="Generated workbooks with every cell record kind at boundary-heavy positions, unknown and bookkeeping records interleaved, are read back and compared with the MS-XLS semantics of each record; each case is read under two choices of encodings of the same numbers. The RK decoder is additionally enumerated over its complete 32-bit domain.",
+   note="Trusts the harness BIFF8 writer (enc/biff8.rs), its reference RK decoder and the CFB writer. Cell records are written in row order; formula strings fit one STRING record.",
+   design="4/C02"),
+ "C04": dict(
+   technique="property-based round-trip testing (proptest) through a harness-written ODS encoder; metamorphic relation: every maximal run of identical cells/rows is cut into a generated composition of repeated elements, and each grid is read under two different groupings; thorough adds exhaustive 3x3 occupancy patterns x origins x groupings",
+   text="Sparse grids whose first used row/column lies anywhere in the sheet, with duplicated neighbours, covered cells, annotations, formulas and every value type; trailing empties omitted, explicit, or LibreOffice-style (repeats to 16384/1048576). Bounds, every value and the formula range are compared with the model under both groupings.",
+   note="Trusts enc/ods.rs (layout of runs) and its expected-value table. Conventional prefixes, no white space between the cells of a row.",
+   design="4/C04"),
+ "C12": dict(
+   technique="property-based round-trip testing (proptest) with a shared-string table encoder that takes an explicit CONTINUE split plan (cut positions x per-segment 8/16-bit packing); differential against the unsplit layout; thorough enumerates every single and every pair of cut positions on a fixed table",
+   text="Every SST entry, LABELSST cell, sheet name, LABEL and FORMULA+STRING value must decode to the source text under generated cuts: before a string, between characters with a fresh flag byte and independent packing per segment, after the characters, at run boundaries and inside ExtRst; natural >8224-byte CONTINUEs are forced by long strings.",
+   note="Trusts the SST writer in enc/biff8.rs. String headers are never split; cuts never fall inside a surrogate pair; code page 1200.",
+   design="4/C12"),
+ "C13": dict(
+   technique="property-based differential testing (proptest) with a compound-file writer that takes the physical layout as a generated parameter (sector size, sector permutation for every chain incl. FAT/DIFAT/directory/mini-FAT/mini-stream container, free sectors, directory order, mini-sector permutation, trailing bytes); every stream is compared with its logical bytes under the generated and the canonical layout; the writer is cross-checked by an independent reader in the harness",
+   text="Stream sizes are steered onto 0/1/63/64/65/4095/4096/4097 and sector multiples +-1; three >7 MB cases per quick run (24 thorough) force a DIFAT chain. Through the cfb_stream hook and end-to-end: the C02/C12 workbooks are stored under generated layouts.",
+   note="Trusts enc/cfb.rs (self-checked on every case by enc::cfb::read_back; a self-check failure exits 2, never 1). Stream names unique per file.",
+   design="4/C13"),
+ "C17": dict(
+   technique="property-based round-trip testing (proptest): generated merge regions and table parts written by the harness XLSX encoder, every getter compared with the declared geometry and the table data range with the model values",
+   text="0-12 merge references per sheet anywhere up to XFD1048576, several sheets, attribution by sheet; 0-3 tables per sheet inside / straddling / outside the used range or on an empty sheet, header 0/1/absent, totals 0/1/absent, column names with XML specials; owned and borrowed table getters. The xls MERGEDCELLS part is added with the BIFF encoder.",
+   note="Trusts enc/xlsx.rs. Tables have >= 1 data row; table parts are referenced as ../tables/tableN.xml.",
+   design="4/C17"),
 }
 
 NOT_APPLICABLE = {
